@@ -264,7 +264,14 @@ def cmd_hunt(outdir, wtroot, n, jobs=5):
     for w in wts:
         free.put(w)
     lock = threading.Lock()
-    todo = [m for m in index if m['tests'] == 'pass' and m['detected_by'] is None and not m.get('hunted')]
+    def relevant(m):
+        # GUI layout / display-range code carries no property of the list
+        if m['file'] == 'astrodendro/viewer.py' and (61 <= m['line'] <= 176 or 196 <= m['line'] <= 211):
+            return False
+        if m['file'] == 'astrodendro/scatter.py' and (77 <= m['line'] <= 86 or m['line'] >= 145):
+            return False
+        return True
+    todo = [m for m in index if m['tests'] == 'pass' and m['detected_by'] is None and not m.get('hunted') and relevant(m)]
     print('to hunt:', len(todo))
     done = [0]
 
